@@ -8,6 +8,7 @@ import Spq.Drv.Module
 import Spq.Drv.Cache
 import Spq.Drv.Cover
 import Spq.Drv.ModuleNtt
+import Spq.Drv.CSrc
 /- Model driver: one operation per line in, one canonical result line out. -/
 open Spq.Drv
 
@@ -26,6 +27,7 @@ def dispatch (toks : List String) : String :=
     | "ca" :: rest => handleCa rest
     | "cv" :: rest => handleCv rest
     | "mn" :: rest => handleMn rest
+    | "cs" :: rest => handleCs rest
     | _ => none
   r.getD "bad-op"
 
